@@ -621,3 +621,16 @@ def run(repo: Repo, chk: Check, thorough: bool = False) -> None:
                    'another page: same-page references come out as `#name` on a page without that anchor', repo.loc(f.mod, c))
     if n_src < 2:
         raise AnalysisError(f'R11.5: {n_src} renderings through a docstring source object found (format_docstring, format_summary confirmed)')
+
+    # ------------------------------------------------------------------ R11.2 (addition): the table of contents is computed, not woven into the docstring
+    # build_table_of_content() is called for every expanded sidebar entry - also on the pages of OTHER objects, before anybody decides whether the list is
+    # shown.  If it writes back-references (`title['refid'] = <id of the entry>`) into the docstring's own document, the title on the object's page links
+    # to the id of an entry that was generated for another page and is not on this one
+    bt = repo.func('pydoctor.epydoc.docutils.build_table_of_content')
+    np_ = bt.params()[0].arg
+    writes = [n for n in bt.walk() if isinstance(n, ast.Assign) and any(isinstance(t, ast.Subscript) and isinstance(t.slice, ast.Constant) and t.slice.value in ('refid', 'refuri', 'ids', 'backrefs')
+                                                                       for t in n.targets)]
+    chk.ob('R11.2', 'pydoctor.epydoc.docutils.build_table_of_content :: the document of the docstring is read, not modified', not writes,
+           'no attribute of an existing node is assigned' if not writes else
+           f'`{norm(writes[0])}` stores the id of a generated entry in a node of the docstring: with --sidebar-expand-depth >= 2 the titles of a module or class link to '
+           '`#rst-toc-entry-1`, an id that only exists in the sidebar of the parent\'s page', repo.loc(bt.mod, writes[0]) if writes else bt.loc)
